@@ -1,4 +1,1066 @@
-//! C26: not built yet.
-use crate::util::Ctx;
+//! C26 — execution follows the GraphQL execution algorithm.
+//!
+//! Stream `c26.exec`: (schema, operation+fragments, coerced variables, resolver world) ↦ response
+//! (`data` with key order, sorted error paths).  The real code is `resolvers::Execution::execute_sync`
+//! over `ObjectValue`s that serve a *world* table `(object id, field name) ↦ resolved value`.
+//! The oracle is a reference executor written from the GraphQL specification (October 2021 §6.3, §6.4:
+//! CollectFields, ExecuteSelectionSet, ExecuteField, CoerceArgumentValues, CompleteValue,
+//! ResolveAbstractType, "Handling Field Errors") plus apollo-compiler's documented choices; it works on the
+//! generator's own descriptions and never calls apollo's execution code.
+//! The generators (schemas, operations, worlds) are `pub` for C27.
+use crate::p28::{toks, Lit, Ty, JV};
+use crate::util::*;
+use apollo_compiler::resolvers::{Execution, FieldError, ObjectValue, ResolveInfo, ResolvedValue};
+use apollo_compiler::validation::Valid;
+use apollo_compiler::{ExecutableDocument, Schema};
+use serde_json_bytes::Value as SJ;
+use std::collections::{BTreeMap, BTreeSet, HashMap};
 
-pub fn run(_ctx: &mut Ctx) {}
+// ───────────────────────── schema description ─────────────────────────
+
+#[derive(Clone, Debug)]
+pub struct ArgDef { pub name: String, pub ty: Ty, pub default: Option<Lit> }
+#[derive(Clone, Debug)]
+pub struct FieldDef { pub name: String, pub args: Vec<ArgDef>, pub ty: Ty }
+#[derive(Clone, Debug)]
+pub struct ObjDef { pub name: String, pub implements: Vec<String>, pub fields: Vec<FieldDef> }
+#[derive(Clone, Debug)]
+pub struct SchemaD {
+    pub scalars: Vec<String>,
+    pub enums: Vec<(String, Vec<String>)>,
+    pub inputs: Vec<(String, Vec<ArgDef>)>,
+    pub interfaces: Vec<(String, Vec<FieldDef>)>,
+    pub unions: Vec<(String, Vec<String>)>,
+    pub objects: Vec<ObjDef>,
+    pub query: String,
+}
+
+pub fn ty(s: &str) -> Ty {
+    let s = s.trim();
+    if let Some(inner) = s.strip_suffix('!') {
+        return match ty(inner) { Ty::Named(n) => Ty::NonNullNamed(n), Ty::List(t) => Ty::NonNullList(t), t => t };
+    }
+    if let Some(inner) = s.strip_prefix('[') { return Ty::List(Box::new(ty(inner.strip_suffix(']').expect("]")))); }
+    Ty::Named(s.to_string())
+}
+
+pub fn inner_name(t: &Ty) -> &str {
+    match t { Ty::Named(n) | Ty::NonNullNamed(n) => n, Ty::List(t) | Ty::NonNullList(t) => inner_name(t) }
+}
+
+fn fd(name: &str, t: &str) -> FieldDef { FieldDef { name: name.into(), args: vec![], ty: ty(t) } }
+fn fda(name: &str, args: Vec<ArgDef>, t: &str) -> FieldDef { FieldDef { name: name.into(), args, ty: ty(t) } }
+fn ad(name: &str, t: &str, d: Option<Lit>) -> ArgDef { ArgDef { name: name.into(), ty: ty(t), default: d } }
+
+impl SchemaD {
+    pub fn object(&self, n: &str) -> Option<&ObjDef> { self.objects.iter().find(|o| o.name == n) }
+    pub fn is_interface(&self, n: &str) -> bool { self.interfaces.iter().any(|(k, _)| k == n) }
+    pub fn union(&self, n: &str) -> Option<&Vec<String>> { self.unions.iter().find(|(k, _)| k == n).map(|(_, m)| m) }
+    pub fn is_composite(&self, n: &str) -> bool { self.object(n).is_some() || self.is_interface(n) || self.union(n).is_some() }
+    /// the object types a value of composite type `n` can have
+    pub fn possible(&self, n: &str) -> Vec<String> {
+        if self.object(n).is_some() { return vec![n.to_string()]; }
+        if let Some(m) = self.union(n) { return m.clone(); }
+        self.objects.iter().filter(|o| o.implements.iter().any(|i| i == n)).map(|o| o.name.clone()).collect()
+    }
+    /// fields selectable on composite type `n` (without `__typename`)
+    pub fn fields_of(&self, n: &str) -> Vec<FieldDef> {
+        if let Some(o) = self.object(n) { return o.fields.clone(); }
+        if let Some((_, f)) = self.interfaces.iter().find(|(k, _)| k == n) { return f.clone(); }
+        vec![]
+    }
+    pub fn sdl(&self) -> String {
+        let mut s = String::new();
+        let fields = |fs: &Vec<FieldDef>| -> String {
+            fs.iter().map(|f| {
+                let args = if f.args.is_empty() { String::new() } else {
+                    format!("({})", f.args.iter().map(|a| format!("{}: {}{}", a.name, a.ty.print(), a.default.as_ref().map(|d| format!(" = {}", d.print())).unwrap_or_default())).collect::<Vec<_>>().join(", "))
+                };
+                format!("  {}{}: {}\n", f.name, args, f.ty.print())
+            }).collect()
+        };
+        for n in &self.scalars { s.push_str(&format!("scalar {n}\n")); }
+        for (n, vs) in &self.enums { s.push_str(&format!("enum {n} {{ {} }}\n", vs.join(" "))); }
+        for (n, fs) in &self.inputs {
+            s.push_str(&format!("input {n} {{\n"));
+            for f in fs { s.push_str(&format!("  {}: {}{}\n", f.name, f.ty.print(), f.default.as_ref().map(|d| format!(" = {}", d.print())).unwrap_or_default())); }
+            s.push_str("}\n");
+        }
+        for (n, fs) in &self.interfaces { s.push_str(&format!("interface {n} {{\n{}}}\n", fields(fs))); }
+        for (n, ms) in &self.unions { s.push_str(&format!("union {n} = {}\n", ms.join(" | "))); }
+        for o in &self.objects {
+            let imp = if o.implements.is_empty() { String::new() } else { format!(" implements {}", o.implements.join(" & ")) };
+            s.push_str(&format!("type {}{} {{\n{}}}\n", o.name, imp, fields(&o.fields)));
+        }
+        s.push_str(&format!("schema {{ query: {} }}\n", self.query));
+        s
+    }
+    pub fn enc(&self) -> String {
+        let mut out = vec![format!("q{}", self.query)];
+        let defs = |out: &mut Vec<String>, ds: &Vec<ArgDef>, tag: char| {
+            out.push(ds.len().to_string());
+            for a in ds {
+                out.push(format!("{tag}{}", a.name));
+                a.ty.enc(out);
+                match &a.default { None => out.push("-".into()), Some(d) => { out.push("=".into()); d.enc(out) } }
+            }
+        };
+        out.push((self.scalars.len() + self.enums.len() + self.inputs.len() + self.interfaces.len() + self.unions.len() + self.objects.len()).to_string());
+        for n in &self.scalars { out.push(format!("S{n}")); }
+        for (n, vs) in &self.enums { out.push(format!("E{n}")); out.push(vs.len().to_string()); for v in vs { out.push(format!("v{v}")) } }
+        for (n, fs) in &self.inputs { out.push(format!("I{n}")); defs(&mut out, fs, 'f'); }
+        for (n, _) in &self.interfaces { out.push(format!("F{n}")); }
+        for (n, ms) in &self.unions { out.push(format!("U{n}")); out.push(ms.len().to_string()); for m in ms { out.push(format!("m{m}")) } }
+        for o in &self.objects {
+            out.push(format!("O{}", o.name));
+            out.push(o.implements.len().to_string());
+            for i in &o.implements { out.push(format!("m{i}")) }
+            out.push(o.fields.len().to_string());
+            for f in &o.fields {
+                out.push(format!("f{}", f.name));
+                defs(&mut out, &f.args, 'a');
+                f.ty.enc(&mut out);
+            }
+        }
+        toks(out)
+    }
+}
+
+pub fn schema_a() -> SchemaD {
+    SchemaD {
+        scalars: vec!["Any".into()],
+        enums: vec![("Color".into(), vec!["RED".into(), "GREEN".into()])],
+        inputs: vec![("Pt".into(), vec![ad("x", "Int!", None), ad("y", "Int", Some(Lit::Int(7))), ad("l", "[Int!]", None)])],
+        interfaces: vec![("Node".into(), vec![fd("id", "ID!")]), ("Named".into(), vec![fd("name", "String")])],
+        unions: vec![("Pet".into(), vec!["Dog".into(), "Cat".into()])],
+        objects: vec![
+            ObjDef { name: "Query".into(), implements: vec![], fields: vec![
+                fd("i", "Int"), fd("ni", "Int!"), fd("f", "Float"), fd("s", "String"), fd("b", "Boolean"), fd("id", "ID"), fd("c", "Color"), fd("nc", "Color!"), fd("any", "Any"),
+                fd("li", "[Int]"), fd("lni", "[Int!]"), fd("nlni", "[Int!]!"), fd("lli", "[[Int!]]"), fd("llni", "[[Int]!]"),
+                fd("dog", "Dog"), fd("ndog", "Dog!"), fd("node", "Node"), fd("nnode", "Node!"), fd("named", "Named"), fd("pet", "Pet"), fd("pets", "[Pet]"), fd("npets", "[Pet!]"), fd("nodes", "[Node!]!"),
+                fd("self", "Query"), fd("nself", "Query!"),
+                fda("echo", vec![ad("a", "Int", Some(Lit::Int(5))), ad("b", "[Int!]", None), ad("p", "Pt", None), ad("c", "Color", None)], "Any"),
+                fda("echoR", vec![ad("r", "String!", None), ad("n", "Int!", Some(Lit::Int(5)))], "Any!"),
+                fda("echoN", vec![ad("n", "Int!", Some(Lit::Int(5))), ad("p", "Pt", None)], "Any"),
+            ] },
+            ObjDef { name: "Dog".into(), implements: vec!["Node".into(), "Named".into()], fields: vec![
+                fd("id", "ID!"), fd("name", "String"), fd("bark", "Int!"), fd("owner", "Human"), fd("friends", "[Pet!]"), fd("mate", "Dog"),
+                fda("echo", vec![ad("a", "Int", Some(Lit::Int(5))), ad("n", "Int!", Some(Lit::Int(1)))], "Any"),
+            ] },
+            ObjDef { name: "Cat".into(), implements: vec!["Node".into()], fields: vec![fd("id", "ID!"), fd("name", "String"), fd("lives", "Int"), fd("nlives", "Int!")] },
+            ObjDef { name: "Human".into(), implements: vec!["Named".into()], fields: vec![fd("name", "String"), fd("pets", "[Pet]"), fd("age", "Int!")] },
+        ],
+        query: "Query".into(),
+    }
+}
+
+/// a second, smaller schema with other nesting (root type not called Query, union of one member, deep non-null chain)
+pub fn schema_b() -> SchemaD {
+    SchemaD {
+        scalars: vec![],
+        enums: vec![],
+        inputs: vec![],
+        interfaces: vec![("Box".into(), vec![fd("v", "Int!")])],
+        unions: vec![("One".into(), vec!["A".into()])],
+        objects: vec![
+            ObjDef { name: "Root".into(), implements: vec![], fields: vec![fd("a", "A!"), fd("oa", "A"), fd("bx", "Box"), fd("boxes", "[Box!]"), fd("one", "One!"), fd("grid", "[[A!]!]"), fd("v", "Int")] },
+            ObjDef { name: "A".into(), implements: vec!["Box".into()], fields: vec![fd("v", "Int!"), fd("next", "A!"), fd("on", "A"), fd("w", "String!")] },
+            ObjDef { name: "B".into(), implements: vec!["Box".into()], fields: vec![fd("v", "Int!"), fd("a", "A!"), fd("z", "Float")] },
+        ],
+        query: "Root".into(),
+    }
+}
+
+// ───────────────────────── operations ─────────────────────────
+
+/// argument value: a constant literal that may contain variables
+#[derive(Clone, Debug, PartialEq)]
+pub enum AV { Var(String), Null, Bool(bool), Int(i128), Float(String), Str(String), Enum(String), List(Vec<AV>), Obj(Vec<(String, AV)>) }
+
+#[derive(Clone, Debug, PartialEq)]
+pub enum Cond { Const(bool), Var(String) }
+
+#[derive(Clone, Debug, Default, PartialEq)]
+pub struct Dirs { pub skip: Option<Cond>, pub include: Option<Cond> }
+
+#[derive(Clone, Debug)]
+pub enum Sel {
+    Field { alias: Option<String>, name: String, args: Vec<(String, AV)>, dirs: Dirs, sub: Vec<Sel> },
+    Spread { name: String, dirs: Dirs },
+    Inline { cond: Option<String>, dirs: Dirs, sub: Vec<Sel> },
+}
+
+#[derive(Clone, Debug)]
+pub struct Frag { pub name: String, pub cond: String, pub sub: Vec<Sel> }
+
+#[derive(Clone, Debug)]
+pub struct VarDecl { pub name: String, pub ty: Ty, pub default: Option<Lit> }
+
+#[derive(Clone, Debug)]
+pub struct Op { pub vars: Vec<VarDecl>, pub sels: Vec<Sel>, pub frags: Vec<Frag> }
+
+impl AV {
+    fn print(&self) -> String {
+        match self {
+            AV::Var(n) => format!("${n}"), AV::Null => "null".into(), AV::Bool(b) => b.to_string(), AV::Int(i) => i.to_string(), AV::Float(t) => t.clone(),
+            AV::Str(s) => format!("\"{s}\""), AV::Enum(e) => e.clone(),
+            AV::List(xs) => format!("[{}]", xs.iter().map(|x| x.print()).collect::<Vec<_>>().join(", ")),
+            AV::Obj(kvs) => format!("{{{}}}", kvs.iter().map(|(k, v)| format!("{k}: {}", v.print())).collect::<Vec<_>>().join(", ")),
+        }
+    }
+    fn enc(&self, out: &mut Vec<String>) {
+        match self {
+            AV::Var(n) => out.push(format!("q{n}")), AV::Null => out.push("z".into()), AV::Bool(b) => out.push(if *b { "t" } else { "f" }.into()),
+            AV::Int(i) => out.push(format!("i{i}")), AV::Float(t) => out.push(format!("d{t}")), AV::Str(s) => out.push(format!("s{s}")), AV::Enum(e) => out.push(format!("e{e}")),
+            AV::List(xs) => { out.push(format!("a{}", xs.len())); for x in xs { x.enc(out) } }
+            AV::Obj(kvs) => { out.push(format!("o{}", kvs.len())); for (k, v) in kvs { out.push(format!("k{k}")); v.enc(out) } }
+        }
+    }
+    fn vars(&self, out: &mut BTreeSet<String>) {
+        match self { AV::Var(n) => { out.insert(n.clone()); } AV::List(xs) => xs.iter().for_each(|x| x.vars(out)), AV::Obj(kvs) => kvs.iter().for_each(|(_, x)| x.vars(out)), _ => {} }
+    }
+}
+
+impl Dirs {
+    fn print(&self) -> String {
+        let c = |c: &Cond| match c { Cond::Const(b) => b.to_string(), Cond::Var(n) => format!("${n}") };
+        let mut s = String::new();
+        if let Some(x) = &self.skip { s.push_str(&format!(" @skip(if: {})", c(x))); }
+        if let Some(x) = &self.include { s.push_str(&format!(" @include(if: {})", c(x))); }
+        s
+    }
+    fn enc(&self, out: &mut Vec<String>) {
+        for c in [&self.skip, &self.include] {
+            out.push(match c { None => "-".into(), Some(Cond::Const(true)) => "t".into(), Some(Cond::Const(false)) => "f".into(), Some(Cond::Var(n)) => format!("v{n}") });
+        }
+    }
+    fn vars(&self, out: &mut BTreeSet<String>) {
+        for c in [&self.skip, &self.include] { if let Some(Cond::Var(n)) = c { out.insert(n.clone()); } }
+    }
+}
+
+fn print_sels(sels: &[Sel], out: &mut String) {
+    out.push_str("{ ");
+    for s in sels {
+        match s {
+            Sel::Field { alias, name, args, dirs, sub } => {
+                if let Some(a) = alias { out.push_str(&format!("{a}: ")); }
+                out.push_str(name);
+                if !args.is_empty() { out.push_str(&format!("({})", args.iter().map(|(k, v)| format!("{k}: {}", v.print())).collect::<Vec<_>>().join(", "))); }
+                out.push_str(&dirs.print());
+                out.push(' ');
+                if !sub.is_empty() { print_sels(sub, out); }
+            }
+            Sel::Spread { name, dirs } => out.push_str(&format!("...{name}{} ", dirs.print())),
+            Sel::Inline { cond, dirs, sub } => {
+                out.push_str("... ");
+                if let Some(c) = cond { out.push_str(&format!("on {c}")); }
+                out.push_str(&dirs.print());
+                out.push(' ');
+                print_sels(sub, out);
+            }
+        }
+    }
+    out.push_str("} ");
+}
+
+fn enc_sels(sels: &[Sel], out: &mut Vec<String>) {
+    out.push(sels.len().to_string());
+    for s in sels {
+        match s {
+            Sel::Field { alias, name, args, dirs, sub } => {
+                out.push("F".into());
+                out.push(match alias { Some(a) => format!("a{a}"), None => "-".into() });
+                out.push(format!("f{name}"));
+                out.push(args.len().to_string());
+                for (k, v) in args { out.push(format!("k{k}")); v.enc(out); }
+                dirs.enc(out);
+                enc_sels(sub, out);
+            }
+            Sel::Spread { name, dirs } => { out.push(format!("P{name}")); dirs.enc(out); }
+            Sel::Inline { cond, dirs, sub } => {
+                out.push("N".into());
+                out.push(match cond { Some(c) => format!("c{c}"), None => "-".into() });
+                dirs.enc(out);
+                enc_sels(sub, out);
+            }
+        }
+    }
+}
+
+fn sel_vars(sels: &[Sel], out: &mut BTreeSet<String>) {
+    for s in sels {
+        match s {
+            Sel::Field { args, dirs, sub, .. } => { args.iter().for_each(|(_, v)| v.vars(out)); dirs.vars(out); sel_vars(sub, out); }
+            Sel::Spread { dirs, .. } => dirs.vars(out),
+            Sel::Inline { dirs, sub, .. } => { dirs.vars(out); sel_vars(sub, out); }
+        }
+    }
+}
+
+impl Op {
+    pub fn text(&self) -> String {
+        let mut s = String::from("query");
+        if !self.vars.is_empty() {
+            s.push('(');
+            for v in &self.vars {
+                s.push_str(&format!("${}: {}{} ", v.name, v.ty.print(), v.default.as_ref().map(|d| format!(" = {}", d.print())).unwrap_or_default()));
+            }
+            s.push(')');
+        }
+        s.push(' ');
+        print_sels(&self.sels, &mut s);
+        for f in &self.frags {
+            s.push_str(&format!("fragment {} on {} ", f.name, f.cond));
+            print_sels(&f.sub, &mut s);
+        }
+        s
+    }
+    pub fn enc(&self) -> String {
+        let mut out = vec![self.frags.len().to_string()];
+        for f in &self.frags { out.push(format!("g{}", f.name)); out.push(format!("c{}", f.cond)); enc_sels(&f.sub, &mut out); }
+        enc_sels(&self.sels, &mut out);
+        toks(out)
+    }
+}
+
+/// the variables every generated operation may use: (declaration, raw value provided in the request)
+pub fn var_pool() -> Vec<(VarDecl, Option<JV>)> {
+    let v = |n: &str, t: &str, d: Option<Lit>, val: Option<JV>| (VarDecl { name: n.into(), ty: ty(t), default: d }, val);
+    vec![
+        v("t", "Boolean!", None, Some(JV::Bool(true))),
+        v("f", "Boolean!", None, Some(JV::Bool(false))),
+        v("d", "Boolean", Some(Lit::Bool(true)), None),
+        v("vi", "Int", None, Some(JV::Int(3))),
+        v("vn", "Int", None, Some(JV::Null)),
+        v("va", "Int", None, None),
+        v("vs", "String!", None, Some(JV::Str("hi".into()))),
+        v("vp", "Pt", None, Some(JV::Obj(vec![("x".into(), JV::Int(4))]))),
+        v("vb", "[Int!]", None, Some(JV::Int(2))),
+        v("vc", "Color", None, Some(JV::Str("GREEN".into()))),
+    ]
+}
+
+// ───────────────────────── worlds ─────────────────────────
+
+/// what a resolver returns for one field of one object
+#[derive(Clone, Debug, PartialEq)]
+pub enum RV {
+    Leaf(JV),
+    /// `Err(FieldError)`: of the resolver, or (inside a list) of the item stream
+    Error,
+    List(Vec<RV>),
+    /// object of the named type with a fresh identity
+    Object(String, usize),
+    /// `ResolvedValue::SkipForPartialExecution`
+    Skip,
+    /// leaf: the coerced arguments as a JSON object
+    Echo,
+}
+
+#[derive(Clone, Debug, Default)]
+pub struct World { pub table: BTreeMap<(usize, String), RV>, pub next_id: usize }
+
+impl RV {
+    fn enc(&self, out: &mut Vec<String>) {
+        match self {
+            RV::Leaf(j) => { out.push("l".into()); j.enc(out) }
+            RV::Error => out.push("x".into()),
+            RV::Skip => out.push("s".into()),
+            RV::Echo => out.push("e".into()),
+            RV::List(xs) => { out.push(format!("L{}", xs.len())); for x in xs { x.enc(out) } }
+            RV::Object(t, id) => { out.push(format!("o{t}")); out.push(id.to_string()) }
+        }
+    }
+}
+
+impl World {
+    pub fn enc(&self) -> String {
+        let mut out = vec![self.table.len().to_string()];
+        for ((id, f), rv) in &self.table { out.push(id.to_string()); out.push(format!("w{f}")); rv.enc(&mut out); }
+        toks(out)
+    }
+}
+
+/// how resolver values are generated on demand (the first time the reference executor asks)
+pub struct WorldGen<'r> { pub rng: &'r mut Rng, pub deviate_pct: u32, pub forced: HashMap<String, RV> }
+
+const LEAF_ATOMS: [&str; 0] = [];
+
+fn leaf_atoms() -> Vec<JV> {
+    let _ = LEAF_ATOMS;
+    vec![
+        JV::Int(0), JV::Int(7), JV::Int(-1), JV::Int((1 << 31) - 1), JV::Int(1 << 31), JV::Int(-(1 << 31) - 1), JV::Int(i64::MAX as i128), JV::Int(i64::MAX as i128 + 1),
+        JV::Float("1.5".into()), JV::Float("3.0".into()), JV::Str("abc".into()), JV::Str("RED".into()), JV::Str("7".into()), JV::Str("".into()),
+        JV::Bool(true), JV::Bool(false), JV::Arr(vec![JV::Int(1)]), JV::Obj(vec![("k".into(), JV::Int(1))]),
+    ]
+}
+
+impl<'r> WorldGen<'r> {
+    fn correct(&mut self, sd: &SchemaD, w: &mut World, t: &Ty, depth: usize) -> RV {
+        let nullable = !t.is_non_null();
+        if nullable && self.rng.chance(1, 7) { return RV::Leaf(JV::Null); }
+        match t {
+            Ty::List(inner) | Ty::NonNullList(inner) => {
+                let n = self.rng.below(4);
+                RV::List((0..n).map(|_| self.any(sd, w, inner, depth + 1, true)).collect())
+            }
+            Ty::Named(n) | Ty::NonNullNamed(n) => match n.as_str() {
+                "Int" => RV::Leaf(JV::Int(*self.rng.pick(&[0, 7, -1, (1i128 << 31) - 1, -(1i128 << 31)]))),
+                "Float" => RV::Leaf(JV::Float(self.rng.pick(&["1.5", "3.0", "-0.25"]).to_string())),
+                "String" => RV::Leaf(JV::Str(self.rng.pick(&["abc", "", "7"]).to_string())),
+                "Boolean" => RV::Leaf(JV::Bool(self.rng.chance(1, 2))),
+                "ID" => if self.rng.chance(1, 2) { RV::Leaf(JV::Str("id1".into())) } else { RV::Leaf(JV::Int(*self.rng.pick(&[5, -5, i64::MAX as i128]))) },
+                _ => {
+                    if let Some((_, vs)) = sd.enums.iter().find(|(k, _)| k == n) { return RV::Leaf(JV::Str(self.rng.pick(vs).clone())); }
+                    if sd.scalars.contains(n) { return RV::Leaf(self.rng.pick(&leaf_atoms()).clone()); }
+                    let poss = sd.possible(n);
+                    let tn = self.rng.pick(&poss).clone();
+                    w.next_id += 1;
+                    RV::Object(tn, w.next_id)
+                }
+            },
+        }
+    }
+    fn deviant(&mut self, sd: &SchemaD, w: &mut World, t: &Ty, in_list: bool) -> RV {
+        match self.rng.below(if in_list { 9 } else { 10 }) {
+            0 => RV::Leaf(JV::Null),
+            1 => RV::Error,
+            2 | 3 => RV::Leaf(self.rng.pick(&leaf_atoms()).clone()),
+            4 => RV::List(vec![RV::Leaf(JV::Int(1))]),
+            5 => { w.next_id += 1; RV::Object(self.rng.pick(&["Ghost", "Query", "Root", "Node", "Pt"]).to_string(), w.next_id) }
+            6 => { w.next_id += 1; let all: Vec<String> = sd.objects.iter().map(|o| o.name.clone()).collect(); RV::Object(self.rng.pick(&all).clone(), w.next_id) }
+            7 => RV::List(vec![]),
+            8 => { let x = self.correct(sd, w, t, 3); RV::List(vec![x, RV::Error]) }
+            _ => RV::Skip,
+        }
+    }
+    fn any(&mut self, sd: &SchemaD, w: &mut World, t: &Ty, depth: usize, in_list: bool) -> RV {
+        if self.rng.below(100) < self.deviate_pct as usize { self.deviant(sd, w, t, in_list) } else { self.correct(sd, w, t, depth) }
+    }
+    pub fn resolve(&mut self, sd: &SchemaD, w: &mut World, id: usize, field: &FieldDef) -> RV {
+        if let Some(rv) = w.table.get(&(id, field.name.clone())) { return rv.clone(); }
+        let rv = if let Some(rv) = self.forced.get(&field.name) {
+            // forced values are templates: object identities are made fresh
+            fn fresh(rv: &RV, w: &mut World) -> RV {
+                match rv { RV::Object(t, _) => { w.next_id += 1; RV::Object(t.clone(), w.next_id) } RV::List(xs) => RV::List(xs.iter().map(|x| fresh(x, w)).collect()), x => x.clone() }
+            }
+            fresh(rv, w)
+        } else if field.name.starts_with("echo") { RV::Echo } else { self.any(sd, w, &field.ty, 0, false) };
+        w.table.insert((id, field.name.clone()), rv.clone());
+        rv
+    }
+}
+
+// ───────────────────────── the reference executor (from the specification) ─────────────────────────
+
+#[derive(Clone, Debug, PartialEq, Eq, PartialOrd, Ord)]
+pub enum Seg { Key(String), Index(usize) }
+
+pub fn path_text(p: &[Seg]) -> String {
+    p.iter().map(|s| match s { Seg::Key(k) => format!("k{k}"), Seg::Index(i) => format!("#{i}") }).collect::<Vec<_>>().join("/")
+}
+
+pub struct Reference<'a, 'r> {
+    pub sd: &'a SchemaD,
+    pub op: &'a Op,
+    pub vars: &'a [(String, JV)],
+    pub world: World,
+    pub gen: WorldGen<'r>,
+    pub errors: Vec<Vec<Seg>>,
+    /// response positions whose declared type is non-null and that received a value
+    pub non_null_positions: Vec<Vec<Seg>>,
+    pub path: Vec<Seg>,
+    pub stats: BTreeMap<&'static str, u64>,
+}
+
+/// a field error was raised and is travelling to the nearest nullable position
+pub struct Raised;
+
+fn typename_field() -> FieldDef { fd("__typename", "String!") }
+
+impl<'a, 'r> Reference<'a, 'r> {
+    fn raise(&mut self, why: &'static str) -> Raised {
+        self.errors.push(self.path.clone());
+        *self.stats.entry(why).or_insert(0) += 1;
+        Raised
+    }
+
+    fn cond(&self, c: &Option<Cond>) -> Option<bool> {
+        match c { None => None, Some(Cond::Const(b)) => Some(*b), Some(Cond::Var(n)) => match self.vars.iter().find(|(k, _)| k == n) { Some((_, JV::Bool(b))) => Some(*b), _ => None } }
+    }
+
+    /// DoesFragmentTypeApply(objectType, fragmentType)
+    fn applies(&self, object_type: &str, fragment_type: &str) -> bool {
+        if self.sd.object(fragment_type).is_some() { return object_type == fragment_type; }
+        if self.sd.is_interface(fragment_type) { return self.sd.object(object_type).is_some_and(|o| o.implements.iter().any(|i| i == fragment_type)); }
+        if let Some(m) = self.sd.union(fragment_type) { return m.iter().any(|x| x == object_type); }
+        false
+    }
+
+    /// CollectFields(objectType, selectionSet, variableValues, visitedFragments)
+    fn collect_fields(&self, object_type: &str, sels: &[&'a Sel], visited: &mut Vec<String>, groups: &mut Vec<(String, Vec<&'a Sel>)>) {
+        for sel in sels {
+            let dirs = match sel { Sel::Field { dirs, .. } | Sel::Spread { dirs, .. } | Sel::Inline { dirs, .. } => dirs };
+            if self.cond(&dirs.skip) == Some(true) { continue; }
+            if self.cond(&dirs.include) == Some(false) { continue; }
+            match sel {
+                Sel::Field { alias, name, .. } => {
+                    let key = alias.clone().unwrap_or_else(|| name.clone());
+                    match groups.iter_mut().find(|(k, _)| *k == key) { Some((_, g)) => g.push(sel), None => groups.push((key, vec![sel])) }
+                }
+                Sel::Spread { name, .. } => {
+                    if visited.contains(name) { continue; }
+                    visited.push(name.clone());
+                    let Some(frag) = self.op.frags.iter().find(|f| f.name == *name) else { continue };
+                    if !self.applies(object_type, &frag.cond) { continue; }
+                    let sub: Vec<&Sel> = frag.sub.iter().collect();
+                    self.collect_fields(object_type, &sub, visited, groups);
+                }
+                Sel::Inline { cond, sub, .. } => {
+                    if let Some(c) = cond { if !self.applies(object_type, c) { continue; } }
+                    let sub: Vec<&Sel> = sub.iter().collect();
+                    self.collect_fields(object_type, &sub, visited, groups);
+                }
+            }
+        }
+    }
+
+    /// ExecuteSelectionSet: `Err(Raised)` = the selection set's result is null because a non-null field failed
+    pub fn execute_selection_set(&mut self, object_type: &str, id: usize, sels: &[&'a Sel]) -> Result<JV, Raised> {
+        let mut groups = vec![];
+        self.collect_fields(object_type, sels, &mut vec![], &mut groups);
+        let mut out = vec![];
+        for (key, fields) in groups {
+            let Sel::Field { name, .. } = fields[0] else { unreachable!() };
+            let def = if name == "__typename" { Some(typename_field()) } else { self.sd.object(object_type).and_then(|o| o.fields.iter().find(|f| f.name == *name).cloned()) };
+            let Some(def) = def else { continue };
+            self.path.push(Seg::Key(key.clone()));
+            let r = self.execute_field(object_type, id, &def, &fields);
+            let r = match r {
+                Ok(v) => Ok(v),
+                // Handling Field Errors: a nullable field becomes null, a non-null field passes the error to its parent
+                Err(Raised) => if def.ty.is_non_null() { Err(Raised) } else { Ok(Some(JV::Null)) },
+            };
+            if let Ok(Some(v)) = &r { if def.ty.is_non_null() && *v != JV::Null { self.non_null_positions.push(self.path.clone()); } }
+            self.path.pop();
+            match r { Ok(Some(v)) => out.push((key, v)), Ok(None) => {} Err(Raised) => return Err(Raised) }
+        }
+        Ok(JV::Obj(out))
+    }
+
+    /// ExecuteField = CoerceArgumentValues, ResolveFieldValue, CompleteValue
+    fn execute_field(&mut self, object_type: &str, id: usize, def: &FieldDef, fields: &[&'a Sel]) -> Result<Option<JV>, Raised> {
+        let Sel::Field { args, .. } = fields[0] else { unreachable!() };
+        let arg_values = self.coerce_argument_values(def, args)?;
+        let resolved = if def.name == "__typename" { RV::Leaf(JV::Str(object_type.to_string())) } else {
+            let sd = self.sd;
+            let mut w = std::mem::take(&mut self.world);
+            let rv = self.gen.resolve(sd, &mut w, id, def);
+            self.world = w;
+            rv
+        };
+        let resolved = match resolved { RV::Echo => RV::Leaf(JV::Obj(arg_values)), RV::Error => return Err(self.raise("resolver-error")), x => x };
+        self.complete_value(&def.ty, &resolved, fields)
+    }
+
+    /// CoerceArgumentValues(objectType, field, variableValues)
+    fn coerce_argument_values(&mut self, def: &FieldDef, args: &[(String, AV)]) -> Result<Vec<(String, JV)>, Raised> {
+        let mut out = vec![];
+        for a in &def.args {
+            let given = args.iter().find(|(k, _)| *k == a.name).map(|(_, v)| v);
+            // hasValue / value
+            let value: Option<Result<JV, AV>> = match given {
+                None => None,
+                Some(AV::Var(n)) => self.vars.iter().find(|(k, _)| k == n).map(|(_, v)| Ok(v.clone())),
+                Some(lit) => Some(Err(lit.clone())),
+            };
+            match value {
+                None => {
+                    if let Some(d) = &a.default { out.push((a.name.clone(), d.to_jv())); }
+                    else if a.ty.is_non_null() { return Err(self.raise("arg-missing")); }
+                }
+                Some(Ok(v)) => {
+                    if v == JV::Null && a.ty.is_non_null() { return Err(self.raise("arg-null-variable")); }
+                    out.push((a.name.clone(), v));
+                }
+                Some(Err(lit)) => {
+                    if lit == AV::Null && a.ty.is_non_null() { return Err(self.raise("arg-null")); }
+                    match self.coerce_literal(&a.ty, &lit) { Ok(v) => out.push((a.name.clone(), v)), Err(()) => return Err(self.raise("arg-coercion")) }
+                }
+            }
+        }
+        Ok(out)
+    }
+
+    /// input coercion of a literal (§3.5–§3.12), variables inside it replaced by their runtime values
+    fn coerce_literal(&self, t: &Ty, v: &AV) -> Result<JV, ()> {
+        if *v == AV::Null { return if t.is_non_null() { Err(()) } else { Ok(JV::Null) }; }
+        if let AV::Var(n) = v {
+            return match self.vars.iter().find(|(k, _)| k == n) {
+                Some((_, JV::Null)) if t.is_non_null() => Err(()),
+                Some((_, x)) => Ok(x.clone()),
+                None => if t.is_non_null() { Err(()) } else { Ok(JV::Null) },
+            };
+        }
+        match t {
+            Ty::List(inner) | Ty::NonNullList(inner) => match v {
+                AV::List(xs) => Ok(JV::Arr(xs.iter().map(|x| self.coerce_literal(inner, x)).collect::<Result<_, _>>()?)),
+                x => Ok(JV::Arr(vec![self.coerce_literal(inner, x)?])),
+            },
+            Ty::Named(n) | Ty::NonNullNamed(n) => {
+                if let Some((_, fields)) = self.sd.inputs.iter().find(|(k, _)| k == n) {
+                    let AV::Obj(kvs) = v else { return Err(()) };
+                    if kvs.iter().any(|(k, _)| !fields.iter().any(|f| f.name == *k)) { return Err(()); }
+                    let mut out = vec![];
+                    for f in fields {
+                        match kvs.iter().find(|(k, _)| *k == f.name) {
+                            Some((_, fv)) => out.push((f.name.clone(), self.coerce_literal(&f.ty, fv)?)),
+                            None => if let Some(d) = &f.default { out.push((f.name.clone(), d.to_jv())) } else if f.ty.is_non_null() { return Err(()) },
+                        }
+                    }
+                    return Ok(JV::Obj(out));
+                }
+                // scalars and enums: validation already checked the literal's kind
+                Ok(match v {
+                    AV::Bool(b) => JV::Bool(*b), AV::Int(i) => JV::Int(*i), AV::Float(t) => JV::Float(t.clone()), AV::Str(s) | AV::Enum(s) => JV::Str(s.clone()),
+                    AV::List(xs) => JV::Arr(xs.iter().map(|x| self.coerce_literal(t, x)).collect::<Result<_, _>>()?),
+                    AV::Obj(kvs) => JV::Obj(kvs.iter().map(|(k, x)| Ok((k.clone(), self.coerce_literal(t, x)?))).collect::<Result<_, ()>>()?),
+                    AV::Null | AV::Var(_) => unreachable!(),
+                })
+            }
+        }
+    }
+
+    /// result coercion of a leaf (§3.5 "Result Coercion") under apollo-compiler's documented choices:
+    /// no conversion between kinds (an integer is not a Float, a float is not an Int), ID from string or integer,
+    /// custom scalars pass through, enums by name
+    fn coerce_result(&self, name: &str, j: &JV) -> bool {
+        match name {
+            "Int" => matches!(j, JV::Int(i) if (-(1i128 << 31)..(1i128 << 31)).contains(i)),
+            "Float" => matches!(j, JV::Float(_)),
+            "String" => matches!(j, JV::Str(_)),
+            "Boolean" => matches!(j, JV::Bool(_)),
+            "ID" => matches!(j, JV::Str(_) | JV::Int(_)),
+            _ => match self.sd.enums.iter().find(|(k, _)| k == name) { Some((_, vs)) => matches!(j, JV::Str(s) if vs.contains(s)), None => true },
+        }
+    }
+
+    /// CompleteValue(fieldType, fields, result, variableValues).  `Ok(None)`: the position is left out
+    /// (`SkipForPartialExecution`).  `Err(Raised)`: this position failed.
+    fn complete_value(&mut self, t: &Ty, rv: &RV, fields: &[&'a Sel]) -> Result<Option<JV>, Raised> {
+        match rv {
+            RV::Skip => return Ok(None),
+            RV::Leaf(JV::Null) => return if t.is_non_null() { Err(self.raise("null-at-non-null")) } else { Ok(Some(JV::Null)) },
+            _ => {}
+        }
+        match t {
+            Ty::List(inner) | Ty::NonNullList(inner) => {
+                let RV::List(items) = rv else { return Err(self.raise("not-a-list")) };
+                let mut out = vec![];
+                for (i, item) in items.iter().enumerate() {
+                    self.path.push(Seg::Index(i));
+                    // documented choice (unit test `test_error_path`): an error of the item stream fails the list itself
+                    if *item == RV::Error { let r = self.raise("item-stream-error"); self.path.pop(); return Err(r); }
+                    let r = self.complete_value(inner, item, fields);
+                    if let Ok(Some(v)) = &r { if inner.is_non_null() && *v != JV::Null { self.non_null_positions.push(self.path.clone()); } }
+                    self.path.pop();
+                    match r {
+                        Ok(Some(v)) => out.push(v),
+                        Ok(None) => {}
+                        Err(Raised) => if inner.is_non_null() { return Err(Raised) } else { out.push(JV::Null) },
+                    }
+                }
+                Ok(Some(JV::Arr(out)))
+            }
+            Ty::Named(n) | Ty::NonNullNamed(n) => {
+                if let RV::List(_) = rv { return Err(self.raise("list-for-non-list")); }
+                if self.sd.is_composite(n) {
+                    let RV::Object(tn, id) = rv else { return Err(self.raise("leaf-for-composite")) };
+                    // ResolveAbstractType: the object's own type; it must be an object type of the schema and possible here
+                    if self.sd.object(tn).is_none() { return Err(self.raise("unknown-object-type")); }
+                    if !self.sd.possible(n).contains(tn) { return Err(self.raise("impossible-object-type")); }
+                    let mut sub: Vec<&Sel> = vec![];
+                    for f in fields { if let Sel::Field { sub: s, .. } = f { sub.extend(s.iter()); } }
+                    self.execute_selection_set(tn, *id, &sub).map(Some)
+                } else {
+                    let RV::Leaf(j) = rv else { return Err(self.raise("object-for-leaf")) };
+                    if self.coerce_result(n, j) { Ok(Some(j.clone())) } else { Err(self.raise("leaf-coercion")) }
+                }
+            }
+        }
+    }
+}
+
+pub struct RefResponse { pub data: Option<JV>, pub errors: Vec<Vec<Seg>>, pub non_null_positions: Vec<Vec<Seg>>, pub world: World, pub stats: BTreeMap<&'static str, u64> }
+
+pub fn run_reference(sd: &SchemaD, op: &Op, vars: &[(String, JV)], gen: WorldGen<'_>, world: World) -> RefResponse {
+    let mut r = Reference { sd, op, vars, world, gen, errors: vec![], non_null_positions: vec![], path: vec![], stats: BTreeMap::new() };
+    let sels: Vec<&Sel> = op.sels.iter().collect();
+    let data = r.execute_selection_set(&sd.query, 0, &sels).ok();
+    RefResponse { data, errors: r.errors, non_null_positions: r.non_null_positions, world: r.world, stats: r.stats }
+}
+
+// ───────────────────────── serving a world to the real executor ─────────────────────────
+
+pub struct WObj<'w> { pub world: &'w World, pub ty: String, pub id: usize }
+
+pub fn to_resolved<'w>(world: &'w World, rv: &RV, args: &serde_json_bytes::Map<serde_json_bytes::ByteString, SJ>) -> Result<ResolvedValue<'w>, FieldError> {
+    Ok(match rv {
+        RV::Leaf(j) => ResolvedValue::leaf(j.to_sj()),
+        RV::Error => return Err(FieldError { message: "world: error".into() }),
+        RV::Skip => ResolvedValue::SkipForPartialExecution,
+        RV::Echo => ResolvedValue::leaf(SJ::Object(args.clone())),
+        RV::Object(t, id) => ResolvedValue::object(WObj { world, ty: t.clone(), id: *id }),
+        RV::List(items) => {
+            let v: Vec<Result<ResolvedValue<'w>, FieldError>> = items.iter().map(|x| to_resolved(world, x, args)).collect();
+            ResolvedValue::List(Box::new(v.into_iter()))
+        }
+    })
+}
+
+impl<'w> ObjectValue for WObj<'w> {
+    fn type_name(&self) -> &str { &self.ty }
+    fn resolve_field<'a>(&'a self, info: &'a ResolveInfo<'a>) -> Result<ResolvedValue<'a>, FieldError> {
+        match self.world.table.get(&(self.id, info.field_name().to_string())) {
+            Some(rv) => to_resolved(self.world, rv, info.arguments()),
+            None => Err(self.unknown_field_error(info)),
+        }
+    }
+}
+
+pub struct Compiled { pub schema: Valid<Schema>, pub sd: SchemaD, pub enc: String }
+
+pub fn compile_schema(sd: SchemaD) -> Compiled {
+    let schema = Schema::parse_and_validate(sd.sdl(), "s.graphql").unwrap_or_else(|e| panic!("fixed schema is valid: {}", e.errors));
+    let enc = sd.enc();
+    Compiled { schema, sd, enc }
+}
+
+pub fn canon(data: &Option<JV>, errors: &[Vec<Seg>]) -> String {
+    let mut t = vec!["data".to_string()];
+    match data { Some(d) => d.enc(&mut t), None => t.push("N".into()) }
+    let mut e: Vec<String> = errors.iter().map(|p| path_text(p)).collect();
+    e.sort();
+    format!("{} | errs {}", t.join(" "), e.join(";"))
+}
+
+fn lookup<'j>(data: &'j JV, path: &[Seg]) -> Option<&'j JV> {
+    let mut cur = data;
+    for s in path {
+        cur = match (s, cur) {
+            (Seg::Key(k), JV::Obj(kvs)) => &kvs.iter().find(|(kk, _)| kk == k)?.1,
+            (Seg::Index(i), JV::Arr(xs)) => xs.get(*i)?,
+            _ => return None,
+        };
+    }
+    Some(cur)
+}
+
+/// an error path must lead to a null in `data`: at the position itself or at an ancestor (where it was caught)
+fn error_path_ok(data: &JV, path: &[Seg]) -> bool {
+    let mut cur = data;
+    for s in path {
+        if *cur == JV::Null { return true; }
+        let next = match (s, cur) {
+            (Seg::Key(k), JV::Obj(kvs)) => kvs.iter().find(|(kk, _)| kk == k).map(|x| &x.1),
+            (Seg::Index(i), JV::Arr(xs)) => xs.get(*i),
+            _ => None,
+        };
+        match next { Some(n) => cur = n, None => return false }
+    }
+    *cur == JV::Null
+}
+
+fn has_skip(rv: &RV) -> bool { match rv { RV::Skip => true, RV::List(xs) => xs.iter().any(has_skip), _ => false } }
+
+/// one case: reference run (creating the world), real run, comparison, invariants, correspondence line
+pub fn one(ctx: &mut Ctx, c: &Compiled, op: &Op, deviate_pct: u32, forced: HashMap<String, RV>, label: &str) {
+    let text = op.text();
+    let doc = match ExecutableDocument::parse_and_validate(&c.schema, &text, "q.graphql") {
+        Ok(d) => d,
+        Err(e) => {
+            ctx.stat("generated_invalid");
+            if ctx.stats.get("generated_invalid").copied().unwrap_or(0) <= 3 { ctx.fail("generator-invalid", &text, &e.errors.to_string().replace('\n', " ")); }
+            return;
+        }
+    };
+    let operation = doc.operations.get(None).expect("one operation");
+    // variables: raw request values of the declared variables, coerced by the real CoerceVariableValues (the subject of C28)
+    let pool = var_pool();
+    let raw: Vec<(String, JV)> = op.vars.iter().filter_map(|v| pool.iter().find(|(d, _)| d.name == v.name).and_then(|(_, val)| val.clone().map(|x| (v.name.clone(), x)))).collect();
+    let SJ::Object(raw_map) = JV::Obj(raw).to_sj() else { unreachable!() };
+    let coerced = match apollo_compiler::request::coerce_variable_values(&c.schema, operation, &raw_map) {
+        Ok(m) => m,
+        Err(e) => { ctx.fail("generator-variables", &text, &format!("{}", e.message())); return; }
+    };
+    let JV::Obj(vars) = JV::from_sj(&SJ::Object(coerced.clone().into_inner())) else { unreachable!() };
+
+    // reference run; it asks the world generator for every resolver value it needs
+    let seed = ctx.rng.next();
+    let mut wrng = Rng(seed);
+    let reference = run_reference(&c.sd, op, &vars, WorldGen { rng: &mut wrng, deviate_pct, forced }, World::default());
+    let world = reference.world;
+    for (k, n) in &reference.stats { ctx.stat_n(&format!("raise:{k}"), *n); }
+    let input = format!("{} || {} || vars {} || world {}", c.sd.sdl().replace('\n', " "), text, JV::Obj(vars.clone()).json_text(), world.enc());
+
+    // real run
+    let root = WObj { world: &world, ty: c.sd.query.clone(), id: 0 };
+    let resp = match catch(|| Execution::new(&c.schema, &doc).operation(operation).coerced_variable_values(&coerced).execute_sync(&root)) {
+        Ok(Ok(r)) => r,
+        Ok(Err(e)) => { ctx.fail("request-error", &input, &format!("{}", e.message())); return; }
+        Err(p) => { ctx.fail("execution-panics", &input, &p); return; }
+    };
+    let got_data = resp.data.as_ref().map(|m| JV::from_sj(&SJ::Object(m.clone())));
+    let got_errors: Vec<Vec<Seg>> = resp.errors.iter().map(|e| e.path.iter().map(|s| match s {
+        apollo_compiler::response::ResponseDataPathSegment::Field(n) => Seg::Key(n.to_string()),
+        apollo_compiler::response::ResponseDataPathSegment::ListIndex(i) => Seg::Index(*i),
+    }).collect()).collect();
+    let got = canon(&got_data, &got_errors);
+    let want = canon(&reference.data, &reference.errors);
+    ctx.stat(label);
+    ctx.stat(&format!("errors_{}", got_errors.len().min(4)));
+    if got_data.is_none() { ctx.stat("data_null"); }
+    let skips = world.table.values().any(has_skip);
+    if got != want {
+        let key = if got_data.is_none() != reference.data.is_none() { "exec-data-null-differs" }
+            else if got_data != reference.data { "exec-data-differs" } else { "exec-errors-differ" };
+        ctx.fail(key, &input, &format!("execute_sync = {got}; reference executor = {want}"));
+    } else {
+        // the three invariants, stated directly on the real response
+        if let Some(d) = &got_data {
+            for p in &reference.non_null_positions {
+                if let Some(JV::Null) = lookup(d, p) { ctx.fail("exec-null-at-non-null", &input, &format!("null at non-null position {}", path_text(p))); }
+            }
+            if !skips {
+                for p in &got_errors {
+                    if p.is_empty() || !error_path_ok(d, p) { ctx.fail("exec-error-path", &input, &format!("error path {} does not lead to a null in data {}", path_text(p), d.json_text())); }
+                }
+            }
+        } else if got_errors.is_empty() {
+            ctx.fail("exec-data-null-without-error", &input, "data is null but no field error was reported");
+        }
+        if !got_errors.is_empty() || text.contains("...") { ctx.nontrivial(&format!("{text}|{got}")); }
+    }
+    let mut vt = vec![];
+    JV::Obj(vars).enc(&mut vt);
+    ctx.case("c26.exec", &[c.enc.clone(), op.enc(), toks(vt), world.enc()], &got);
+}
+
+// ───────────────────────── operation generator ─────────────────────────
+
+pub struct OpGen<'a> {
+    pub sd: &'a SchemaD,
+    pub frags: Vec<Frag>,
+    keymap: HashMap<String, String>,
+    alias_ctr: usize,
+    pub max_depth: usize,
+}
+
+impl<'a> OpGen<'a> {
+    pub fn new(sd: &'a SchemaD, max_depth: usize) -> Self { OpGen { sd, frags: vec![], keymap: HashMap::new(), alias_ctr: 0, max_depth } }
+
+    fn applicable(&self, parent: &str) -> Vec<String> {
+        let pp = self.sd.possible(parent);
+        let mut all: Vec<String> = self.sd.objects.iter().map(|o| o.name.clone()).collect();
+        all.extend(self.sd.interfaces.iter().map(|(n, _)| n.clone()));
+        all.extend(self.sd.unions.iter().map(|(n, _)| n.clone()));
+        all.into_iter().filter(|t| self.sd.possible(t).iter().any(|x| pp.contains(x))).collect()
+    }
+
+    fn gen_dirs(&mut self, rng: &mut Rng) -> Dirs {
+        let mut d = Dirs::default();
+        if rng.chance(1, 6) {
+            let c = match rng.below(6) { 0 => Cond::Const(true), 1 => Cond::Const(false), 2 => Cond::Var("t".into()), 3 => Cond::Var("f".into()), _ => Cond::Var("d".into()) };
+            if rng.chance(1, 2) { d.skip = Some(c) } else { d.include = Some(c) }
+            if rng.chance(1, 5) { let c2 = if rng.chance(1, 2) { Cond::Var("f".into()) } else { Cond::Const(true) }; if d.skip.is_none() { d.skip = Some(c2) } else { d.include = Some(c2) } }
+        }
+        d
+    }
+
+    fn gen_arg(&mut self, rng: &mut Rng, a: &ArgDef) -> AV {
+        let base = inner_name(&a.ty).to_string();
+        let use_var = rng.chance(2, 5);
+        match (base.as_str(), &a.ty) {
+            ("Int", Ty::Named(_)) => if use_var { AV::Var(rng.pick(&["vi", "vn", "va"]).to_string()) } else if rng.chance(1, 6) { AV::Null } else { AV::Int(rng.below(9) as i128 - 2) },
+            ("Int", Ty::NonNullNamed(_)) => if use_var { AV::Var(rng.pick(&["vi", "vn", "va"]).to_string()) } else { AV::Int(rng.below(9) as i128) },
+            ("Int", _) => if use_var { AV::Var("vb".into()) } else { match rng.below(4) { 0 => AV::Int(1), 1 => AV::List(vec![]), 2 => AV::List(vec![AV::Int(1), AV::Var("vi".into())]), _ => AV::Null } },
+            ("String", _) => if use_var { AV::Var("vs".into()) } else { AV::Str("lit".into()) },
+            ("Color", _) => if use_var { AV::Var("vc".into()) } else if rng.chance(1, 5) { AV::Null } else { AV::Enum("RED".into()) },
+            ("Pt", _) => if use_var { AV::Var("vp".into()) } else {
+                let mut kvs = vec![("x".to_string(), if rng.chance(1, 3) { AV::Var("vi".into()) } else { AV::Int(1) })];
+                if rng.chance(1, 2) { kvs.push(("y".into(), match rng.below(3) { 0 => AV::Null, 1 => AV::Var("vn".into()), _ => AV::Int(2) })); }
+                if rng.chance(1, 3) { kvs.push(("l".into(), match rng.below(3) { 0 => AV::Int(3), 1 => AV::Var("vb".into()), _ => AV::List(vec![AV::Int(1), AV::Int(2)]) })); }
+                if rng.chance(1, 2) { kvs.reverse(); }
+                AV::Obj(kvs)
+            },
+            _ => AV::Null,
+        }
+    }
+
+    fn gen_field(&mut self, rng: &mut Rng, parent: &str, depth: usize) -> Option<Sel> {
+        let mut fields = self.sd.fields_of(parent);
+        if fields.is_empty() || rng.chance(1, 10) { fields = vec![typename_field()]; }
+        let f = rng.pick(&fields).clone();
+        let composite = self.sd.is_composite(inner_name(&f.ty));
+        if composite && depth == 0 { return Some(Sel::Field { alias: None, name: "__typename".into(), args: vec![], dirs: Dirs::default(), sub: vec![] }); }
+        let mut args = vec![];
+        for a in &f.args {
+            let required = a.ty.is_non_null() && a.default.is_none();
+            if required || rng.chance(1, 2) { args.push((a.name.clone(), self.gen_arg(rng, a))); }
+        }
+        let sig = format!("{parent}.{}({})", f.name, args.iter().map(|(k, v)| format!("{k}:{}", v.print())).collect::<Vec<_>>().join(","));
+        // response keys: one field signature per key in the whole document (keeps "fields can merge" satisfied)
+        let mut alias = if rng.chance(1, 4) { Some(format!("k{}", rng.below(4))) } else { None };
+        loop {
+            let key = alias.clone().unwrap_or_else(|| f.name.clone());
+            match self.keymap.get(&key) {
+                Some(s) if *s != sig => { self.alias_ctr += 1; alias = Some(format!("x{}", self.alias_ctr)); }
+                _ => { self.keymap.insert(key, sig.clone()); break; }
+            }
+        }
+        let dirs = self.gen_dirs(rng);
+        let sub = if composite { self.gen_selset(rng, inner_name(&f.ty), depth - 1) } else { vec![] };
+        Some(Sel::Field { alias, name: f.name.clone(), args, dirs, sub })
+    }
+
+    pub fn gen_selset(&mut self, rng: &mut Rng, parent: &str, depth: usize) -> Vec<Sel> {
+        let n = 1 + rng.below(4);
+        let mut out = vec![];
+        for _ in 0..n {
+            let k = rng.below(100);
+            if k < 68 || depth == 0 {
+                if let Some(f) = self.gen_field(rng, parent, depth) { out.push(f); }
+            } else if k < 86 {
+                let cond = if rng.chance(1, 3) { None } else { Some(rng.pick(&self.applicable(parent)).clone()) };
+                let dirs = self.gen_dirs(rng);
+                let body_ty = cond.clone().unwrap_or_else(|| parent.to_string());
+                let sub = self.gen_selset(rng, &body_ty, depth - 1);
+                out.push(Sel::Inline { cond, dirs, sub });
+            } else {
+                let app = self.applicable(parent);
+                let existing: Vec<String> = self.frags.iter().filter(|f| app.contains(&f.cond)).map(|f| f.name.clone()).collect();
+                let name = if !existing.is_empty() && rng.chance(1, 2) { rng.pick(&existing).clone() } else {
+                    let cond = rng.pick(&app).clone();
+                    let sub = self.gen_selset(rng, &cond, depth - 1);
+                    let name = format!("F{}", self.frags.len());
+                    self.frags.push(Frag { name: name.clone(), cond, sub });
+                    name
+                };
+                let dirs = self.gen_dirs(rng);
+                out.push(Sel::Spread { name, dirs });
+            }
+        }
+        out
+    }
+
+    pub fn finish(self, sels: Vec<Sel>) -> Op {
+        let mut used = BTreeSet::new();
+        sel_vars(&sels, &mut used);
+        for f in &self.frags { sel_vars(&f.sub, &mut used); }
+        let vars = var_pool().into_iter().filter(|(d, _)| used.contains(&d.name)).map(|(d, _)| d).collect();
+        Op { vars, sels, frags: self.frags }
+    }
+}
+
+pub fn gen_op(rng: &mut Rng, sd: &SchemaD, max_depth: usize) -> Op {
+    let mut g = OpGen::new(sd, max_depth);
+    let sels = g.gen_selset(rng, &sd.query.clone(), max_depth);
+    g.finish(sels)
+}
+
+fn field_sel(name: &str, sub: Vec<Sel>) -> Sel { Sel::Field { alias: None, name: name.into(), args: vec![], dirs: Dirs::default(), sub } }
+fn alias_sel(alias: &str, name: &str, sub: Vec<Sel>) -> Sel { Sel::Field { alias: Some(alias.into()), name: name.into(), args: vec![], dirs: Dirs::default(), sub } }
+
+/// the catalogue of resolver values tried exhaustively for every field
+fn catalogue(sd: &SchemaD) -> Vec<RV> {
+    let mut v: Vec<RV> = vec![RV::Leaf(JV::Null), RV::Error, RV::Skip];
+    v.extend(leaf_atoms().into_iter().map(RV::Leaf));
+    for o in &sd.objects { v.push(RV::Object(o.name.clone(), 0)); }
+    v.push(RV::Object("Ghost".into(), 0));
+    v.push(RV::Object("Node".into(), 0));
+    let items = vec![RV::Leaf(JV::Int(1)), RV::Leaf(JV::Null), RV::Error, RV::Leaf(JV::Str("x".into())), RV::Skip, RV::Object(sd.objects.last().unwrap().name.clone(), 0), RV::Object(sd.objects[1].name.clone(), 0), RV::List(vec![RV::Leaf(JV::Int(2))]), RV::List(vec![RV::Leaf(JV::Null)]), RV::List(vec![RV::Error]), RV::List(vec![])];
+    v.push(RV::List(vec![]));
+    for a in &items { v.push(RV::List(vec![a.clone()])); }
+    for a in &items { for b in &items { v.push(RV::List(vec![a.clone(), b.clone()])); } }
+    v.push(RV::List(vec![RV::Leaf(JV::Int(1)), RV::Leaf(JV::Int(2)), RV::Leaf(JV::Null), RV::Leaf(JV::Int(4))]));
+    v
+}
+
+fn leaf_subsel(sd: &SchemaD, tyname: &str) -> Vec<Sel> {
+    if !sd.is_composite(tyname) { return vec![]; }
+    let mut sub = vec![field_sel("__typename", vec![])];
+    for f in sd.fields_of(tyname) { if !sd.is_composite(inner_name(&f.ty)) && f.args.is_empty() { sub.push(field_sel(&f.name, vec![])); } }
+    // fields of the possible object types, under type conditions
+    if sd.object(tyname).is_none() {
+        for p in sd.possible(tyname) {
+            let fs: Vec<Sel> = sd.fields_of(&p).iter().filter(|f| !sd.is_composite(inner_name(&f.ty)) && f.args.is_empty()).map(|f| alias_sel(&format!("{}_{}", p, f.name), &f.name, vec![])).collect();
+            if !fs.is_empty() { sub.push(Sel::Inline { cond: Some(p), dirs: Dirs::default(), sub: fs }); }
+        }
+    }
+    sub
+}
+
+pub fn run(ctx: &mut Ctx) {
+    let a = compile_schema(schema_a());
+    let b = compile_schema(schema_b());
+
+    // ── regression inputs: the repo's unit test, and one witness per mechanism ──
+    {
+        let op = Op { vars: vec![], sels: vec![field_sel("li", vec![])], frags: vec![] };
+        let mut forced = HashMap::new();
+        forced.insert("li".to_string(), RV::List(vec![RV::Leaf(JV::Int(42)), RV::Error]));
+        one(ctx, &a, &op, 0, forced, "fixed");
+        // non-null item fails inside a nullable list inside a non-null field chain
+        let op = Op { vars: vec![], sels: vec![field_sel("nself", vec![field_sel("lni", vec![]), field_sel("i", vec![])]), field_sel("s", vec![])], frags: vec![] };
+        let mut forced = HashMap::new();
+        forced.insert("lni".to_string(), RV::List(vec![RV::Leaf(JV::Int(1)), RV::Leaf(JV::Null)]));
+        one(ctx, &a, &op, 0, forced, "fixed");
+        // merged sub-selections, fragment applicability on interface and union
+        let op = Op { vars: vec![], sels: vec![
+            field_sel("pet", vec![field_sel("__typename", vec![]), Sel::Inline { cond: Some("Dog".into()), dirs: Dirs::default(), sub: vec![field_sel("bark", vec![])] }, Sel::Spread { name: "N".into(), dirs: Dirs::default() }]),
+            field_sel("pet", vec![Sel::Inline { cond: Some("Cat".into()), dirs: Dirs::default(), sub: vec![field_sel("lives", vec![])] }, Sel::Inline { cond: Some("Named".into()), dirs: Dirs::default(), sub: vec![field_sel("name", vec![])] }]),
+        ], frags: vec![Frag { name: "N".into(), cond: "Node".into(), sub: vec![field_sel("id", vec![])] }] };
+        for t in ["Dog", "Cat", "Human", "Ghost"] {
+            let mut forced = HashMap::new();
+            forced.insert("pet".to_string(), RV::Object(t.into(), 0));
+            one(ctx, &a, &op, 0, forced, "fixed");
+        }
+    }
+
+    // ── exhaustive: every field of the root types × every catalogued resolver value, at three positions ──
+    for c in [&a, &b] {
+        let cat = catalogue(&c.sd);
+        ctx.stat_n("catalogue_size", cat.len() as u64);
+        let root = c.sd.object(&c.sd.query).unwrap().clone();
+        let nonnull_self = root.fields.iter().find(|f| f.ty == ty(&format!("{}!", c.sd.query))).map(|f| f.name.clone());
+        let nullable_self = root.fields.iter().find(|f| f.ty == ty(&c.sd.query)).map(|f| f.name.clone());
+        for f in &root.fields {
+            if !f.args.is_empty() { continue; }
+            let sub = leaf_subsel(&c.sd, inner_name(&f.ty));
+            for rv in &cat {
+                let mut forced = HashMap::new();
+                forced.insert(f.name.clone(), rv.clone());
+                // 1. at the root, with a sibling after it
+                let op = Op { vars: vec![], sels: vec![alias_sel("first", "__typename", vec![]), field_sel(&f.name, sub.clone()), alias_sel("last", "__typename", vec![])], frags: vec![] };
+                one(ctx, c, &op, 0, forced.clone(), "exhaustive");
+                // 2. under a non-null parent, 3. under a nullable parent
+                for parent in [&nonnull_self, &nullable_self].into_iter().flatten() {
+                    if *parent == f.name { continue; }
+                    let op = Op { vars: vec![], sels: vec![field_sel(parent, vec![field_sel(&f.name, sub.clone()), alias_sel("after", "__typename", vec![])]), alias_sel("last", "__typename", vec![])], frags: vec![] };
+                    one(ctx, c, &op, 0, forced.clone(), "exhaustive");
+                }
+            }
+        }
+    }
+
+    // ── random operations × random worlds ──
+    let n = if ctx.thorough { 150_000 } else { 12_000 };
+    for i in 0..n {
+        let c = if i % 4 == 3 { &b } else { &a };
+        let depth = 1 + ctx.rng.below(4);
+        let op = gen_op(&mut ctx.rng, &c.sd, depth);
+        let dev = *ctx.rng.pick(&[0u32, 8, 8, 20, 45]);
+        one(ctx, c, &op, dev, HashMap::new(), "random");
+    }
+}
